@@ -101,6 +101,15 @@ Proof.
 Qed.
 Print Assumptions C17_wiring.
 
+(* ---- tie to the source: the eight recording operations of AggregatedStats (src/stats/aggregated.rs)
+   as translated on this run: any event sequence through the translated add_* methods leaves the
+   counters the model's aggregated recorder has ---- *)
+Require RV.Model.GenSupport RV.Gen.Code RV.Proofs.CodeStats.
+Theorem C17_translated_aggregated_is_model :
+  forall evs c, RV.Proofs.CodeStats.gen_agg_run c evs = Ok (fold_left agg_step evs c).
+Proof. exact RV.Proofs.CodeStats.gen_agg_run_model. Qed.
+Print Assumptions C17_translated_aggregated_is_model.
+
 (* ---- tie to the source: the integer literals of the functions this property's model stands for
    (private constants, bounds, unit factors; the files are SiteMap.files_C17) are today the ones the
    model was written against. Gen/Sites.v num_literals is regenerated from /repo on every run; a
